@@ -136,7 +136,12 @@ let dirst : dentry list ref = ref []     (* the entry directories of the directo
 let dmode = ref 0                         (* 0: dict specification, 1: SQL-table model (Backends.sql_step), 2: directory model (DirStep.dir_step) *)
 let dop o =
   if !dmode = 0 then (let (m', r) = dstep !dst o in dst := m'; print_string (show_dout r ^ "\n"))
-  else if !dmode = 1 then (let (m', r) = sql_step !sst o in sst := m'; print_string (show_dout r ^ "\n"))
+  else if !dmode = 1 then begin
+    (* the statements the operation issues (SqlCrash.sql_stmts), then the step itself *)
+    let st = sql_stmts !sst o in
+    let shows = function SIns (k, v) -> Printf.sprintf "ins %d %d" (int_of_z k) (int_of_z v) | SDel k -> Printf.sprintf "del %d" (int_of_z k) in
+    let (m', r) = sql_step !sst o in sst := m';
+    print_string (show_dout r ^ " | " ^ String.concat " ; " (List.map shows st) ^ "\n") end
   else (let (m', r) = dir_step (fun k -> k) !dirst o in dirst := m'; print_string (show_dout r ^ "\n"))
 let ints ws = List.map (fun w -> z_of_int (int_of_string w)) ws
 let rec zpairs = function a :: b :: r -> (a, b) :: zpairs r | _ -> []
